@@ -21,8 +21,9 @@ def build_pe(
     append=b"",
     nsections=None,
     machine=None,
+    export_at=0x10,
 ) -> bytes:
-    """Layout: headers | .text (0x200 @rva 0x1000) | .rdata (0x200 @rva 0x2000, export dir at +0x10) | .data | append."""
+    """Layout: headers | .text (0x200 @rva 0x1000) | .rdata (0x200 @rva 0x2000, export dir at +export_at: 0 = first byte of the section, 0x1d8 = ending with it) | .data | append."""
     x64 = arch == "x64"
     dos = bytearray(64)
     dos[0 : len(magic_mz)] = magic_mz
@@ -42,7 +43,7 @@ def build_pe(
     file_hdr = struct.pack("<HHIIIHH", mach, nsec if nsections is None else nsections, compile_stamp, 0, 0, opt_size, 0x2102)
     dd = [(0, 0)] * 16
     if with_export:
-        dd[0] = (0x2010, 0x28)
+        dd[0] = (0x2000 + export_at, 0x28)
     ddb = b"".join(struct.pack("<II", *d) for d in dd)
     if x64:
         opt = struct.pack(
@@ -67,7 +68,7 @@ def build_pe(
     hdr = hdr.ljust(size_of_headers, b"\x00")
     text = b"\xcc" * 0x200
     rdata = bytearray(0x200)
-    struct.pack_into("<IIHHIIIIIII", rdata, 0x10, 0, export_stamp, 0, 0, 0x2040, 1, 1, 1, 0x2050, 0x2054, 0x2058)
+    struct.pack_into("<IIHHIIIIIII", rdata, export_at, 0, export_stamp, 0, 0, 0x2040, 1, 1, 1, 0x2050, 0x2054, 0x2058)
     return bytes(hdr) + text + bytes(rdata) + data.ljust(dlen, b"\x00") + append
 
 
